@@ -1248,6 +1248,55 @@ func ruleReflectExported(c *Ctx, r *Report) {
 			}
 		})
 	}
+	// (added with fix F39) two more reflect operations that panic on a destination the host may well pass:
+	// Value.Addr on a field of a struct that was passed by value (needs CanAddr), Value.SetMapIndex on a nil map
+	// (needs !IsNil).
+	for _, fn := range c.LibFuncs() {
+		if funcPkg(fn) != c.Root {
+			continue
+		}
+		eachInstr(fn, func(in ssa.Instruction) {
+			call, ok := in.(*ssa.Call)
+			if !ok {
+				return
+			}
+			hasFact := func(names map[string]bool, want bool) bool {
+				for f := range c.factsAt(in.Block()) {
+					if x, ok := f.cond.(*ssa.Call); ok {
+						if callee := x.Call.StaticCallee(); callee != nil && callee.Pkg != nil && callee.Pkg.Pkg.Path() == "reflect" && names[callee.Name()] && f.pol == want {
+							return true
+						}
+					}
+				}
+				return false
+			}
+			switch {
+			case isReflectMethod(call, "SetMapIndex"):
+				key := fname(fn) + "/SetMapIndex"
+				if hasFact(map[string]bool{"IsNil": true}, false) {
+					r.ok(rule, key, c.at(in), "a map index is set only in a non-nil map", "under IsNil() == false", true)
+				} else {
+					r.bad(rule, key, c.at(in), "a map index is set only in a non-nil map", "SetMapIndex is reached for a nil map: reflect panics (assignment to entry in nil map) in the caller's goroutine")
+				}
+			case isReflectMethod(call, "Addr") && len(call.Call.Args) > 0:
+				viaField := false
+				for _, l := range c.originSet(call.Call.Args[0]) {
+					if cl, ok := l.(*ssa.Call); ok && isReflectMethod(cl, "Field") {
+						viaField = true
+					}
+				}
+				if !viaField {
+					return
+				}
+				key := fname(fn) + "/Field.Addr"
+				if hasFact(map[string]bool{"CanAddr": true, "CanSet": true}, true) {
+					r.ok(rule, key, c.at(in), "the address of a struct field is taken only when the struct is addressable", "under CanAddr() == true", true)
+				} else {
+					r.bad(rule, key, c.at(in), "the address of a struct field is taken only when the struct is addressable", "Addr() is reached for a struct passed by value: reflect panics (Addr of unaddressable value) in the caller's goroutine")
+				}
+			}
+		})
+	}
 	r.ok(rule, "scan/Interface-calls", "-", desc, fmt.Sprintf("%d reflect.Value.Interface calls in the root package examined, %d of them on struct fields", n, nfield), false)
 	r.analysed(rule, fmt.Sprintf("%d Interface() calls, %d on struct fields", n, nfield))
 }
